@@ -99,6 +99,14 @@ def iter_spec(rng: random.Random, name: str, maxlen: int = 8) -> dict:
     if name == "accumulate":
         spec = {"tool": name, "srcs": [keys_seq(rng, maxlen)], "fns": [rng.choice([None, "add", "pickmax", "first", "second"])],
                 "params": {}}
+        if rng.random() < 0.15:
+            # None / falsy values as items, as initial value and as results of the reduction
+            spec["raw"] = True
+            spec["srcs"] = [[rng.choice([None, 0, 1, 2, 2, ""]) for _ in range(rng.randint(0, min(maxlen, 6)))]]
+            spec["fns"] = [rng.choice(["none_if_2", "retnone", "zero_if_1", "second", "first"])]
+            if rng.random() < 0.3:
+                spec["params"]["initial"] = ["raw", rng.choice([0, "", 1])]
+            return spec
         if rng.random() < 0.2:
             # mutable items: running totals must be new objects, the inputs untouched
             spec["raw"] = True
@@ -321,6 +329,13 @@ def agg_spec(rng: random.Random, name: str, maxlen: int = 8) -> dict:
             spec["params"]["reverse"] = True
         return spec
     if name == "reduce":
+        if rng.random() < 0.15:
+            spec["raw"] = True
+            spec["srcs"] = [[rng.choice([None, 0, 1, 2, 2, ""]) for _ in range(rng.randint(0, min(maxlen, 6)))]]
+            spec["fns"] = [rng.choice(["none_if_2", "retnone", "zero_if_1", "second", "first"])]
+            if rng.random() < 0.4:
+                spec["params"]["initial"] = rng.choice([["raw", 0], ["raw", ""], ["none"]])
+            return spec
         spec["srcs"] = [keys_seq(rng, maxlen)]
         spec["fns"] = [rng.choice(BINARY)]
         r = rng.random()
